@@ -1780,3 +1780,132 @@ class C20(TraceCheck):
 
 
 E.register(C20())
+
+
+# ---------------------------------------------------------------------------------------
+class C07(ProverCheck):
+    name = "C07"
+    prop = "C07"
+    props = ("C01", "C07")
+    budget = {"quick": 2500, "thorough": 150000}
+    components = REAL_TRACE
+    toggles = ("div", "bits", "shift", "pow", "boolop", "check", "tobits", "tobool", "assert", "ite_call",
+               "array", "aset")
+    weights = dict(FULL_MIX, guarded=7, ite_call=4, set_ie=0, val=0.3, div=5, tobool=2, tobits=2, assert_=4)
+    rule = ("guarded regions (decorator form and lazily evaluated if_then_else branches, nesting <= 3, raw 0/1 "
+            "and boolean-typed conditions, each level's condition 0 or 1) whose bodies are drawn from every "
+            "operator and assertion, on operands that are often invalid for the body (out of range at bitlength "
+            "3-5, zero divisors, inexact quotients, failing assertions, out-of-range indices). false guard: no "
+            "value-caused exception may be raised inside, the whole trace stays satisfied, and lies on hint wires "
+            "allocated inside the dead region cannot move any value visible outside. true guard: an "
+            "'unguarded twin' of the same source (regions called directly when their condition is 1, skipped "
+            "when 0) must produce the same final values and raise the same errors at the same statements. "
+            "non-trivial = distinct (plan, inputs) with at least one statement executed under a false guard")
+
+    def cfg(self, rng):
+        c = swarm_cfg(rng, W.DICT_BACKENDS, fxp_p=0.3, bits=(3, 4, 4, 5, 8))
+        c["max_nesting"] = rng.choice([1, 2, 3])
+        c["p_try"] = 1.0
+        c["value_bias"] = rng.choice(["tiny", "mixed", "mixed"])
+        return c
+
+    def gen(self, rng, i, tier):
+        cfg = self.cfg(rng)
+        w = swarm_weights(rng, self.weights, self.toggles)
+        cfg["no_const_zero_divisor"] = True
+        plan = P.generate(rng, cfg, w)
+        return {"plan": plan, "seed": rng.randrange(1 << 30)}
+
+    def run(self, case):
+        plan = case["plan"]
+        rng = _random.Random(case["seed"])
+        tr = T.TraceRun(plan, props=self.props).run()
+        viol = [dict(v) for v in tr.violations if v["property"] in ("C07",)]
+        for v in tr.violations:
+            if v["property"] == "C01" and (v["site"].get("dead") or v["site"].get("guarded")):
+                s = dict(v["site"])
+                viol.append({"property": "C07", "oracle": "unsat_under_guard", "site": s, "detail": v["detail"]})
+        probes = dict(tr.probes)
+        faults = {}
+        events = tr.steps + tr.w.rec.seam_calls
+        dead_seen = bool(tr.probes.get("step_in_dead_region"))
+        if dead_seen:
+            faults["guard0"] = 1
+        if any(d for (_, _, d, _) in tr.caught_ctx):
+            probes["exception_in_dead_region"] = 1
+        if tr.outcome == "completed":
+            # (true guard) unguarded twin
+            tw = T.TraceRun(plan, props=(), mode="unguarded").run()
+            events += tw.steps
+            live_caught = [(s, c) for (s, c, d, _) in tr.caught_ctx if not d]
+            tw_caught = [(s, c) for (s, c, d, _) in tw.caught_ctx]
+            if tw.outcome != "completed":
+                probes["twin_raised"] = 1
+            elif live_caught != tw_caught:
+                k = next((i for i, (a, b) in enumerate(zip(live_caught, tw_caught)) if a != b),
+                         min(len(live_caught), len(tw_caught)))
+                a = live_caught[k] if k < len(live_caught) else None
+                b = tw_caught[k] if k < len(tw_caught) else None
+                site = (a or b)[0]
+                s = dict(tr.gen.sites.get(site, {}).get("desc") or {})
+                s["guarded_exc"] = a[1] if a else None
+                s["unguarded_exc"] = b[1] if b else None
+                viol.append({"property": "C07", "oracle": "true_guard_errors_differ", "site": s,
+                             "detail": "under true guards the script caught %r, unguarded it caught %r" % (a, b)})
+            else:
+                for nm in tr.finals:
+                    if nm in tw.finals and tr.finals[nm][0] % tr.w.rec.p != tw.finals[nm][0] % tr.w.rec.p:
+                        s = dict(tr.gen.origin.get(nm, {}))
+                        viol.append({"property": "C07", "oracle": "true_guard_value_differs", "site": s,
+                                     "detail": "%s = %d guarded, %d unguarded" % (nm, tr.finals[nm][0], tw.finals[nm][0])})
+                        break
+                probes["twin_compared"] = 1
+            # (false guard) lies on hints allocated inside dead regions
+            if dead_seen and not tr.caught and not any(tr.w.rec.cons_flags):
+                trace = PV.Trace(tr)
+                base = trace.base_assignment()
+                if not trace.unsat(base):
+                    deadrids = set()
+                    for (site, n) in tr.marks:
+                        pass
+                    dead_hints = []
+                    for k in trace.hints:
+                        site = trace.alloc_stmt.get(k)
+                        rs = tr.gen.sites.get(site, {}).get("rstack", ())
+                        if any(tr.region_dead.get(r) for r in rs):
+                            dead_hints.append(k)
+                    if dead_hints:
+                        atk = PV.Attack(trace, PV.plan_consts(plan))
+                        b = plan["cfg"]["bitlength"]
+                        tried = 0
+                        for k in dead_hints[:12]:
+                            for cand in atk.candidates(k, rng, b)[:14]:
+                                tried += 1
+                                v, a = atk.try_lie({k: cand}, do_repair=False)
+                                if v is not None and v[0] != "same":
+                                    s = dict(v[1]["desc"])
+                                    s["mode"] = "dead-hint"
+                                    viol.append({"property": "C07", "oracle": "dead_region_moves_result", "site": s,
+                                                 "detail": "lie %r on a hint allocated under a false guard satisfies "
+                                                           "everything and moves %s" % ({k: cand}, v[1]["name"])})
+                                    break
+                            else:
+                                continue
+                            break
+                        faults["lie-wire"] = tried
+                        probes["dead_hints_attacked"] = len(dead_hints)
+        nt = P.plan_digest(plan) if dead_seen else None
+        # de-duplicate
+        out = []
+        for v in viol:
+            if not any(x["oracle"] == v["oracle"] and x["site"] == v["site"] for x in out):
+                out.append(v)
+        return {"violations": out, "digest": E.sha((tr.digest_material(), [v["detail"] for v in out])),
+                "nontrivial": nt, "events": events, "faults": faults, "probes": probes,
+                "sigs": [E.sha(s) for s in tr.state_sigs], "outcome": tr.outcome}
+
+    def shrink_candidates(self, case):
+        return P.shrink_plan_candidates(case)
+
+
+E.register(C07())
